@@ -11,8 +11,6 @@ theorem set_insertIdx_lt {α : Type} (l : List α) (a b : Nat) (hab : a < b) (v 
     (l.insertIdx b v).set a w = (l.set a w).insertIdx b v := by
   induction l generalizing a b with
   | nil =>
-    have : b ≠ 0 := by omega
-    simp [List.insertIdx, this]
     cases b with
     | zero => omega
     | succ b => simp
@@ -22,7 +20,7 @@ theorem set_insertIdx_lt {α : Type} (l : List α) (a b : Nat) (hab : a < b) (v 
     | zero => simp
     | succ a => simp only [List.insertIdx_succ_cons, List.set_cons_succ]; rw [ih a b' (by omega)]
 
-theorem getD_insertIdx_lt (l : List Nat) (a b v : Nat) (hab : a < b) (hb : b ≤ l.length) : (l.insertIdx b v).getD a 0 = l.getD a 0 := by
+theorem getD_insertIdx_lt (l : List Nat) (a b v : Nat) (hab : a < b) (_hb : b ≤ l.length) : (l.insertIdx b v).getD a 0 = l.getD a 0 := by
   simp only [List.getD_eq_getElem?_getD]
   rw [List.getElem?_insertIdx_of_lt hab]
 
